@@ -32,6 +32,15 @@ Proof. apply removelast_last. Qed.
 Lemma last_app_last {A} (l : list A) x d : last (l ++ [x]) d = x.
 Proof. apply last_last. Qed.
 
+Lemma clear_label_data_id (l : list insn) :
+  (forall i, In i l -> is_label i = true -> idata i = false) -> map clear_label_data l = l.
+Proof.
+  induction l as [|i l IH]; intros H; cbn; [reflexivity|].
+  rewrite IH by (intros j Hj; apply H; now right). f_equal.
+  unfold clear_label_data. destruct (is_label i) eqn:E; [|reflexivity].
+  specialize (H i (or_introl eq_refl) E). destruct i; cbn in *. subst. reflexivity.
+Qed.
+
 (* popping exactly the appended names brings both lists back *)
 Lemma pop_vars_added (added : list (Z * nat)) : forall fuel vs tab,
   NoDup (map fst (tab ++ added)) -> length added <= fuel ->
@@ -85,12 +94,13 @@ Qed.
 Lemma apply_edit_frame f0 f e : frame f0 f -> frame f0 (apply_edit f e).
 Proof.
   intros [H1 H2 Hg [added [H3a H3b]] H4 [Hn1 Hn2] H5 H6 H7].
-  destruct e as [pos lab pl rs|pos|pos pl rs|from to|name|k lab lab2]; cbn [apply_edit].
+  destruct e as [pos lab pl rs|pos|pos pl rs|from to|pos b|name|k lab lab2]; cbn [apply_edit].
   - constructor; cbn; auto. exists added; auto.
   - constructor; cbn; auto. exists added; auto.
   - constructor; cbn; auto. exists added; auto.
   - destruct (nth_error (insns f) from); [|constructor; auto; exists added; auto].
     constructor; cbn; auto. exists added; auto.
+  - constructor; cbn; auto. exists added; auto.
   - destruct (existsb (Z.eqb name) (reg_names f)) eqn:Ex.
     + constructor; auto. exists added; auto.
     + assert (Hn : ~ In name (reg_names f)).
@@ -143,13 +153,13 @@ Theorem restore_mutate_dup f s :
   = mkfunc (insns f) [] (vars f) (length (vars f)) (gvars f) (regtab f) (lrefs f)
            (next_id (mutate s (dup f))) (machine_code f) (call_addr f) (faddr f).
 Proof.
-  intros [Ho [Hnd [Hlt [Hrefs [Hl [Hnt [Hv [Hnn Hnb]]]]]]]].
+  intros [Ho [Hnd [Hlt [Hrefs [Hl [Hcl [Hnt [Hv [Hnn Hnb]]]]]]]]].
   assert (Hfr : frame (dup f) (mutate s (dup f))) by (apply mutate_frame, frame_refl; assumption).
   destruct Hfr as [H1 H2 Hg [added [H3a H3b]] H4 Hnums H5 [H6a [H6b H6c]] H7].
   unfold restore. rewrite H1, H2, Hg, H3a, H3b, H6a, H6b, H6c. cbn [dup original_insns original_vars_num vars regtab
     gvars machine_code call_addr faddr].
   rewrite pop_vars_added.
-  - cbn [fst snd]. f_equal.
+  - cbn [fst snd]. rewrite (clear_label_data_id _ Hcl). f_equal.
     eapply map_restore_dup; [|exact H5]. intros l Hin. destruct (Hl l Hin) as [_ [_ [A B]]]. auto.
   - unfold reg_names in H4. rewrite H3b in H4. exact H4.
   - rewrite app_length, map_length. lia.
@@ -164,7 +174,7 @@ Theorem working_regs_distinct f s :
   /\ gvars (mutate s (dup f)) = gvars f
   /\ exists added, regtab (mutate s (dup f)) = regtab f ++ added.
 Proof.
-  intros [Ho [Hnd [Hlt [Hrefs [Hl [Hnt [Hv [Hnn Hnb]]]]]]]].
+  intros [Ho [Hnd [Hlt [Hrefs [Hl [Hcl [Hnt [Hv [Hnn Hnb]]]]]]]]].
   assert (Hfr : frame (dup f) (mutate s (dup f))) by (apply mutate_frame, frame_refl; assumption).
   destruct Hfr as [H1 H2 Hg [added [H3a H3b]] H4 [Hn1 Hn2] H5 H6 H7].
   repeat split; auto. exists added. exact H3b.
@@ -218,7 +228,7 @@ Theorem dup_working_copy_closed f :
   /\ map (fun i => (is_label i, payload i)) (insns (dup f)) = map (fun i => (is_label i, payload i)) (insns f)
   /\ original_insns (dup f) = insns f.
 Proof.
-  intros [Ho [Hnd [Hlt [Hrefs [Hl [Hnt [Hv [Hnn Hnb]]]]]]]].
+  intros [Ho [Hnd [Hlt [Hrefs [Hl [Hcl [Hnt [Hv [Hnn Hnb]]]]]]]]].
   set (m := label_map (insns f) (next_id f)).
   assert (Hlab : label_ids (insns (dup f)) = map snd m) by apply label_ids_copy.
   assert (Hfst : map fst m = label_ids (insns f)) by apply label_map_fst.
@@ -241,7 +251,7 @@ Proof.
     assert (In (iid i) (map iid (copy_insns m (insns f) (next_id f)))) by (apply in_map; exact Hi).
     rewrite copy_insns_ids in H. apply in_seq in H. lia.
   - apply copy_insns_shape.
-  - reflexivity.
+  - cbn [dup original_insns]. apply clear_label_data_id. exact Hcl.
 Qed.
 
 (* ------------------------------------------------------------------ MIR_gen *)
@@ -249,7 +259,7 @@ Qed.
 Lemma restore_wf f s : wf f -> wf (restore (mutate s (dup f))).
 Proof.
   intros Hw. rewrite restore_mutate_dup by exact Hw.
-  destruct Hw as [Ho [Hnd [Hlt [Hrefs [Hl [Hnt [Hv [Hnn Hnb]]]]]]]].
+  destruct Hw as [Ho [Hnd [Hlt [Hrefs [Hl [Hcl [Hnt [Hv [Hnn Hnb]]]]]]]]].
   assert (Hfr : frame (dup f) (mutate s (dup f))) by (apply mutate_frame, frame_refl; assumption).
   pose proof (fr_nid _ _ Hfr) as Hn. cbn [dup next_id] in Hn.
   unfold wf. cbn. repeat split; auto.
@@ -320,4 +330,122 @@ Theorem gen_at_others p i s c j : i <> j -> nth_error (gen_at p i s c) j = nth_e
 Proof.
   intros Hne. unfold gen_at. destruct (nth_error p i); [|reflexivity].
   rewrite nth_error_update_at. destruct (Nat.eqb_spec i j); [contradiction|reflexivity].
+Qed.
+
+(* ------------------------------------------------------------------ insn->data across the engines *)
+
+Lemma clean_b_spec l : clean_b l = true <-> clean l.
+Proof.
+  unfold clean_b, clean. rewrite forallb_forall. split; intros H i Hi; specialize (H i Hi).
+  - now apply negb_true_iff in H.
+  - now rewrite H.
+Qed.
+
+Lemma set_data_false_id l : clean l -> map (set_data false) l = l.
+Proof.
+  induction l as [|i l IH]; intros H; cbn; [reflexivity|].
+  rewrite IH by (intros j Hj; apply H; now right). f_equal.
+  specialize (H i (or_introl eq_refl)). destruct i; cbn in *. subst. reflexivity.
+Qed.
+
+(* preparing a function for interpretation leaves no insn->data behind ... *)
+Theorem icode_prepare_clean f : clean (insns (icode_prepare f)).
+Proof.
+  intros i Hi. cbn in Hi. rewrite map_map in Hi. apply in_map_iff in Hi.
+  destruct Hi as [j [<- _]]. reflexivity.
+Qed.
+
+Theorem finish_interp_clean f : clean (insns (finish_interp f)).
+Proof. intros i Hi. cbn in Hi. apply in_map_iff in Hi. destruct Hi as [j [<- _]]. reflexivity. Qed.
+
+(* ... and changes nothing else: on a clean function it is the identity *)
+Theorem icode_prepare_id f : clean (insns f) -> icode_prepare f = f.
+Proof.
+  intros H. unfold icode_prepare, icode_clear, icode_mark, with_data, with_insns. cbn.
+  rewrite map_map. cbn.
+  replace (map (fun x => set_data false (set_data true x)) (insns f)) with (map (set_data false) (insns f))
+    by (apply map_ext; intros a; reflexivity).
+  rewrite set_data_false_id by exact H. destruct f; reflexivity.
+Qed.
+
+Lemma finish_interp_id f : clean (insns f) -> finish_interp f = f.
+Proof.
+  intros H. unfold finish_interp, with_data, with_insns. cbn.
+  rewrite set_data_false_id by exact H. destruct f; reflexivity.
+Qed.
+
+(* MIR_copy_insn copies the data field: copies of clean insns are clean, and only those *)
+Lemma copy_insns_data m l base : map idata (copy_insns m l base) = map idata l.
+Proof. revert base; induction l as [|i l IH]; intros base; cbn; [reflexivity|]. now rewrite IH. Qed.
+
+Lemma clean_iff_data l : clean l <-> map idata l = map (fun _ => false) l.
+Proof.
+  unfold clean. induction l as [|i l IH]; cbn; [split; [reflexivity|intros _ j []]|].
+  split.
+  - intros H. rewrite (H i (or_introl eq_refl)). f_equal. apply IH. intros j Hj. apply H. now right.
+  - intros H j Hj. injection H as H1 H2. destruct Hj as [<-|Hj]; [exact H1|]. apply IH; assumption.
+Qed.
+
+Lemma copy_insns_clean m l base : clean l <-> clean (copy_insns m l base).
+Proof.
+  rewrite !clean_iff_data, copy_insns_data.
+  assert (E : forall (A B : Type) (x y : list A) (c : B), length x = length y ->
+              map (fun _ => c) x = map (fun _ => c) y).
+  { intros A B x. induction x as [|a x IHx]; intros [|b y] c Hl; cbn in *; try discriminate; [reflexivity|].
+    f_equal. apply IHx. lia. }
+  rewrite (E _ _ (copy_insns m l base) l false) by apply copy_insns_length. reflexivity.
+Qed.
+
+(* the generator's working copy, and what the inliner puts into a caller, carry no stale data exactly
+   when the function they are copied from is clean *)
+Theorem dup_working_copy_clean f : clean (insns f) <-> clean (insns (dup f)).
+Proof. cbn [dup insns]. apply copy_insns_clean. Qed.
+
+Theorem inline_copy_clean callee base : clean (insns callee) <-> clean (inline_copy callee base).
+Proof. unfold inline_copy. apply copy_insns_clean. Qed.
+
+Theorem gen_keeps_clean f s code : wf f -> clean (insns f) -> clean (insns (fst (gen s code f))).
+Proof.
+  intros Hw Hc. unfold gen. destruct (machine_code f); cbn [fst]; [exact Hc|].
+  rewrite restore_mutate_dup by exact Hw. exact Hc.
+Qed.
+
+(* histories of one function: prepared for interpretation, interpreter data dropped, generated *)
+Inductive hop : Type := HPrepare | HFinishInterp | HGen (s : list edit) (code : Z).
+Definition hstep (f : func) (o : hop) : func :=
+  match o with
+  | HPrepare => icode_prepare f
+  | HFinishInterp => finish_interp f
+  | HGen s code => fst (gen s code f)
+  end.
+
+Lemma hstep_ok f o : wf f -> clean (insns f) -> wf (hstep f o) /\ clean (insns (hstep f o)).
+Proof.
+  intros Hw Hc. destruct o as [| |s code]; cbn [hstep].
+  - rewrite icode_prepare_id by exact Hc. split; assumption.
+  - rewrite finish_interp_id by exact Hc. split; assumption.
+  - split; [apply gen_preserves; exact Hw|apply gen_keeps_clean; assumption].
+Qed.
+
+(* after ANY history of interpretation and generation of a function, in any order and any number of
+   times, the function is intact (its view is the original one), the copy the generator would work on
+   is clean, and so is the copy an inlining caller would get *)
+Theorem any_history_keeps_function f ops :
+  wf f -> clean (insns f) ->
+  let f' := fold_left hstep ops f in
+  wf f' /\ view f' = view f /\ clean (insns (dup f')) /\ forall base, clean (inline_copy f' base).
+Proof.
+  intros Hw Hc. cbn zeta.
+  assert (G : wf (fold_left hstep ops f) /\ clean (insns (fold_left hstep ops f))
+              /\ view (fold_left hstep ops f) = view f).
+  { revert f Hw Hc. induction ops as [|o ops IH]; intros f Hw Hc; cbn [fold_left]; [auto|].
+    destruct (hstep_ok f o Hw Hc) as [Hw1 Hc1].
+    destruct (IH _ Hw1 Hc1) as [A [B C]]. split; [exact A|]. split; [exact B|].
+    rewrite C. destruct o as [| |s code]; cbn [hstep].
+    - now rewrite icode_prepare_id.
+    - now rewrite finish_interp_id.
+    - apply gen_preserves. exact Hw. }
+  destruct G as [A [B C]]. split; [exact A|]. split; [exact C|]. split.
+  - apply (proj1 (dup_working_copy_clean _)). exact B.
+  - intros base. apply (proj1 (inline_copy_clean _ base)). exact B.
 Qed.
